@@ -671,8 +671,20 @@ namespace {
                 return;
             if ( mask & m )
                 verif::fail( oracle, verif::cat( msg..., "  [config: ", cf.name, "]  trace: ", trace ), sig );
+            // The deviation is another property's business and the reference can not follow any further. Before the case ends,
+            // the own property is judged once more in the state the reference is sure about: if the reference has not seen a
+            // pairing complete successfully, no key may be offered for (0,0) and the status has to be no_key.
+            if ( !stopping_ )
+            {
+                stopping_ = true;
+                if ( mask & P33 )
+                    probe( 0, 0, false );
+                if ( mask & P35 )
+                    check_status();
+            }
             throw stop_case{};
         }
+        bool stopping_ = false;
 
         void chk_idle( const char* when )
         {
